@@ -4,6 +4,7 @@ package main
 // Usage: gclverify -repo /repo -verif /verif -property C05 -tier quick [-replay file] [-only key]
 
 import (
+	"gclverify/xt/ssa"
 	"encoding/json"
 	"flag"
 	"fmt"
@@ -168,6 +169,8 @@ func runRules(pr *Prog, id string, rs *ruleSet, tier, only string, t0 time.Time)
 				l.Fatal("checker panic: %v\n%s", r, debug.Stack())
 			}
 		}()
+		curProg = pr
+		canonCache = map[ssa.Value]canonCond{}
 		rs.run(pr, l)
 	}()
 	return l
